@@ -148,7 +148,7 @@ class C26(Spec):
             'derivative, for all real inputs" is generated and closed by field')
 
     def gen(self, tier, rng):
-        n = 40 if tier == 'quick' else 600
+        n = 30 if tier == 'quick' else 600
         cases = []
         for k in ('addsub', 'mux', 'dotp', 'cross', 'matvec', 'vmag', 'eqc', 'balance', 'linsys'):
             cases += [gen_case(rng, k) for _ in range(n)]
